@@ -250,7 +250,7 @@ func genOps(t *rapid.T) opsCase {
 	b := genIDs(t, genSize(t), a)
 	// a complete sibling staircase dealt between A and B: neither operand
 	// collapses on its own, their union collapses over several levels
-	for k := rapid.IntRange(0, 2).Draw(t, "dealt"); k > 0; k-- {
+	for k := min(2, rapid.IntRange(0, 4).Draw(t, "dealt")); k > 0; k-- {
 		base := pickBase(t, a, b)
 		for _, id := range staircase(t, base, rapid.IntRange(2, 5).Draw(t, "dealdepth"), rapid.IntRange(0, 5).Draw(t, "dealmiss") == 0) {
 			switch rapid.IntRange(0, 4).Draw(t, "dealto") {
@@ -1055,12 +1055,6 @@ func checkIndex(c indexCase) ev.Outcome {
 			return fail("index-isempty", "range %d = leaves [%d,%d]: IsEmpty=%v but %d indexed cells contain it", i, r.lo, r.hi, empties[i], len(r.want))
 		}
 	}
-	merge := 0
-	for i := 1; i < len(rs); i++ {
-		if eqPairs(rs[i-1].want, rs[i].want) {
-			merge++
-		}
-	}
 	dupPairs := false
 	{
 		m := map[pair]bool{}
@@ -1086,7 +1080,7 @@ func checkIndex(c indexCase) ev.Outcome {
 		o.Class += "+dup-pairs"
 	}
 	o.NonTrivial = maxDepth >= 3 && nonEmpty >= 3
-	o.Counts = map[string]int{"ranges": len(rs), "nonempty-ranges": nonEmpty, "adjacent-equal-content-ranges": merge}
+	o.Counts = map[string]int{"ranges": len(rs), "nonempty-ranges": nonEmpty}
 
 	readContents := func(ci *s2.CellIndexContentsIterator, r *s2.CellIndexRangeIterator) ([]pair, bool) {
 		var out []pair
@@ -1301,21 +1295,21 @@ func checkIndex(c indexCase) ev.Outcome {
 
 func init() {
 	ev.Define("normalize", ev.Options{
-		Rule: "multisets of 0..300 valid cell ids built from operations on fresh/earlier cells (duplicate, ancestor, descendant, 4 children, 3 children, complete/incomplete sibling staircases 2..6 levels deep, runs of adjacent cells across faces, whole faces/all six, other three siblings, boundary leaves, 16 grandchildren, cell+parent), rotated/reversed. Oracle: leaf-interval model, canonical form by greedy maximal aligned blocks; Normalize == canonical, idempotent, order independent, CellUnionFromUnion of a split; IsValid/IsNormalized == model on raw input, sorted maximal cells, a normal form with one cell split, lists with an invalid id. Non-trivial = a cascaded sibling collapse of depth >= 2 occurred.",
-		Quick: 600000, Thorough: 5000000}, genNorm, checkNorm)
+		Rule:  "multisets of 0..300 valid cell ids built from operations on fresh/earlier cells (duplicate, ancestor, descendant, 4 children, 3 children, complete/incomplete sibling staircases 2..6 levels deep, runs of adjacent cells across faces, whole faces/all six, other three siblings, boundary leaves, 16 grandchildren, cell+parent), rotated/reversed. Oracle: leaf-interval model, canonical form by greedy maximal aligned blocks; Normalize == canonical, idempotent, order independent, CellUnionFromUnion of a split; IsValid/IsNormalized == model on raw input, sorted maximal cells, a normal form with one cell split, lists with an invalid id. Non-trivial = a cascaded sibling collapse of depth >= 2 occurred.",
+		Quick: 400000, Thorough: 10000000}, genNorm, checkNorm)
 	ev.Define("set_operations", ev.Options{
-		Rule: "pairs (A,B) (+ optional third) where B's cells are drawn relative to A's (nested, straddling, siblings completing A's groups, adjacent, boundary leaves). Union on the raw multisets; Intersection, Difference (both orders), Contains, Intersects (both orders), IntersectionWithCellID on the normal forms; all == leaf-interval model (exact normalized lists); laws via the library's own operations. Non-trivial = some cell of one normal form strictly inside a cell of the other, the sets intersect, and A∪B collapses siblings over >= 2 levels.",
-		Quick: 400000, Thorough: 3500000}, genOps, checkOps)
+		Rule:  "pairs (A,B) (+ optional third) where B's cells are drawn relative to A's (nested, straddling, siblings completing A's groups, adjacent, boundary leaves). Union on the raw multisets; Intersection, Difference (both orders), Contains, Intersects (both orders), IntersectionWithCellID on the normal forms; all == leaf-interval model (exact normalized lists); laws via the library's own operations. Non-trivial = some cell of one normal form strictly inside a cell of the other, the sets intersect, and A∪B collapses siblings over >= 2 levels.",
+		Quick: 250000, Thorough: 7000000}, genOps, checkOps)
 	ev.Define("membership", ev.Options{
-		Rule: "a union and 1..12 probe cells related to it (members, ancestors, children, inner/boundary/adjacent leaves, curve neighbours, siblings): ContainsCellID/IntersectsCellID (normalized union: leaf model; valid un-normalized variant: single-cell containment as documented), ContainsCell/IntersectsCell, ContainsPoint at leaf centres, LeafCellsCovered, Denormalize(minLevel, levelMod 1..3) == exact expected list and round trip. Non-trivial = probes both inside the union and straddling its boundary.",
-		Quick: 300000, Thorough: 3000000}, genMember, checkMember)
+		Rule:  "a union and 1..12 probe cells related to it (members, ancestors, children, inner/boundary/adjacent leaves, curve neighbours, siblings): ContainsCellID/IntersectsCellID (normalized union: leaf model; valid un-normalized variant: single-cell containment as documented), ContainsCell/IntersectsCell, ContainsPoint at leaf centres, LeafCellsCovered, Denormalize(minLevel, levelMod 1..3) == exact expected list and round trip. Non-trivial = probes both inside the union and straddling its boundary.",
+		Quick: 200000, Thorough: 6000000}, genMember, checkMember)
 	ev.Define("range_tiling", ev.Options{
-		Rule: "leaf ranges [begin,end) with ends at cell boundaries of any level ± small/aligned offsets, empty, single leaf, whole sphere, across faces, end = end-of-space sentinel: CellUnionFromRange == canonical minimal block decomposition, every step of the documented MaxTile loop; MaxTile on arbitrary (cell, limit) pairs == documented definition. Non-trivial = the tiling uses >= 3 different levels.",
-		Quick: 600000, Thorough: 6000000}, genRange, checkRange)
+		Rule:  "leaf ranges [begin,end) with ends at cell boundaries of any level ± small/aligned offsets, empty, single leaf, whole sphere, across faces, end = end-of-space sentinel: CellUnionFromRange == canonical minimal block decomposition, every step of the documented MaxTile loop; MaxTile on arbitrary (cell, limit) pairs == documented definition. Non-trivial = the tiling uses >= 3 different levels.",
+		Quick: 400000, Thorough: 12000000}, genRange, checkRange)
 	ev.Define("intersect_find", ev.Options{
-		Rule: "2..12 arbitrary (un-normalized) unions, later ones related to / copies of earlier ones; model: elementary segments between all interval end points grouped by the exact set of covering unions (>= 2); Find must return exactly one normalized Intersection per non-empty group with exactly its leaves. Non-trivial = >= 2 regions and a region covered by >= 3 unions.",
-		Quick: 250000, Thorough: 2500000}, genFind, checkFind)
+		Rule:  "2..12 arbitrary (un-normalized) unions, later ones related to / copies of earlier ones; model: elementary segments between all interval end points grouped by the exact set of covering unions (>= 2); Find must return exactly one normalized Intersection per non-empty group with exactly its leaves. Non-trivial = >= 2 regions and a region covered by >= 3 unions.",
+		Quick: 150000, Thorough: 5000000}, genFind, checkFind)
 	ev.Define("cell_index", ev.Options{
-		Rule: "0..200 (cell,label) pairs with nesting, duplicates and duplicate pairs, built once: ranges partition the leaf space in order; contents of each range == pairs containing it == pairs intersecting it (multiset); IsEmpty; Prev; non-empty iterator forwards/backwards; one ContentsIterator over an increasing (sub)sequence of ranges reports each pair exactly once, again after Clear; arbitrary order reports each at least once and nothing foreign; Seek (plain: range contains target; non-empty: first non-empty range ending after it); Advance. Non-trivial = some range is contained in >= 3 indexed cells and >= 3 non-empty ranges.",
-		Quick: 200000, Thorough: 2000000}, genIndex, checkIndex)
+		Rule:  "0..200 (cell,label) pairs with nesting, duplicates and duplicate pairs, built once: ranges partition the leaf space in order; contents of each range == pairs containing it == pairs intersecting it (multiset); IsEmpty; Prev; non-empty iterator forwards/backwards; one ContentsIterator over an increasing (sub)sequence of ranges reports each pair exactly once, again after Clear; arbitrary order reports each at least once and nothing foreign; Seek (plain: range contains target; non-empty: first non-empty range ending after it); Advance. Non-trivial = some range is contained in >= 3 indexed cells and >= 3 non-empty ranges.",
+		Quick: 120000, Thorough: 4000000}, genIndex, checkIndex)
 }
